@@ -554,6 +554,21 @@ def fold_events(px, st, events, place, init, init_empty=True):
         if ev[0] != 'call':
             continue
         name = ev[1]
+        if name in px.p.bodies:
+            # a repository function kept opaque (it has loops) that receives `&mut` access to the collection (or to the object holding it):
+            # what it does to the order is unknown
+            shared = ev[9] if len(ev) > 9 else ()
+            for ai, a in enumerate(ev[2]):
+                if ai < len(shared) and shared[ai]:
+                    continue
+                try:
+                    pl = models.vec_place(px, st, a) if a[0] in ('ref', 'pure', 'call') else None
+                except Exception:
+                    pl = None
+                if pl is not None and (pl == place or px.is_prefix(pl, place)):
+                    state, empty = U, True
+                    why.append('passed by &mut to %s' % name.split('::')[-1])
+            continue
         if not models.MUTATOR_RE.search(name) or last(name) in NOT_OPS:
             continue
         tp = target_place(px, st, ev)
@@ -662,6 +677,18 @@ def self_mutations(px, st, events, root=('P', ('param', 1))):
     for ev in events:
         if ev[0] == 'store' and px.is_prefix(root, ev[1]):
             out.append(ev)
+        elif ev[0] == 'call' and ev[1] in px.p.bodies:
+            shared = ev[9] if len(ev) > 9 else ()
+            for ai, a in enumerate(ev[2]):
+                if ai < len(shared) and shared[ai]:
+                    continue
+                try:
+                    tp = models.vec_place(px, st, a) if a[0] in ('ref', 'pure', 'call') else None
+                except Exception:
+                    tp = None
+                if tp is not None and px.is_prefix(root, tp):
+                    out.append(ev)
+                    break
         elif ev[0] == 'call' and models.MUTATOR_RE.search(ev[1]) and ev[2] and last(ev[1]) not in NOT_OPS:
             tp = models.vec_place(px, st, ev[2][0])
             if tp is not None and px.is_prefix(root, tp):
